@@ -46,6 +46,68 @@ var properties = []propertySpec{
 	},
 }
 
+func hist(profile, n, nodes, L, schemes int) map[string]int {
+	return map[string]int{"profile": profile, "n": n, "nodes": nodes, "L": L, "order_schemes": schemes}
+}
+
+func bld(profile, n, schemes int) map[string]int {
+	return map[string]int{"profile": profile, "n": n, "order_schemes": schemes}
+}
+
+const histDesc = "world of n registrations drawn from the kit (symbolic lifetime, identity form, dependency shape per registration; profile = sub-space), real Build, fixed scope tree (provider, scope, child, sibling), L symbolic resolutions then two sweeps resolving every identity at every node; every observed object is bound to the reference model (identity, producer, arguments, constructor counts)"
+const buildDesc = "world of n registrations (profile = sub-space of forms and dependency shapes incl. cycles, scoped targets, unregistered targets); Build verdict class vs the model's dependency relation; on success every identity resolved from a fresh scope"
+
+func init() {
+	h := func(name string, q, t map[string]int, covers []string, xv int, desc string) harnessSpec {
+		return harnessSpec{Name: name, Module: "harness", Quick: q, Thorough: t, Covers: covers, Xval: xv, Desc: desc}
+	}
+	noAs2 := func(m map[string]int) map[string]int { m["as2"] = 0; return m }
+	histCov := []string{"built", "history_done"}
+	buildCov := []string{"built", "build_failed", "model_valid"}
+	properties = append(properties,
+		propertySpec{ID: "C01", Harnesses: []harnessSpec{
+			h("cont.H_Hist", hist(0, 2, 3, 1, 2), hist(0, 2, 4, 2, 2), histCov, 30, histDesc),
+			h("cont.H_Hist", hist(2, 2, 3, 0, 1), hist(2, 2, 4, 1, 2), histCov, 0, histDesc),
+		}},
+		propertySpec{ID: "C02", Harnesses: []harnessSpec{
+			h("cont.H_Hist", noAs2(hist(0, 2, 3, 1, 1)), noAs2(hist(0, 2, 4, 2, 2)), histCov, 30, histDesc),
+			h("cont.H_Hist", noAs2(hist(3, 2, 4, 1, 1)), noAs2(hist(3, 3, 4, 1, 1)), histCov, 0, histDesc),
+		}},
+		propertySpec{ID: "C03", Harnesses: []harnessSpec{
+			h("cont.H_Hist", noAs2(hist(1, 3, 3, 1, 1)), noAs2(hist(1, 3, 4, 2, 1)), histCov, 30, histDesc),
+			h("cont.H_Hist", noAs2(hist(0, 2, 3, 1, 1)), noAs2(hist(0, 2, 4, 2, 1)), histCov, 0, histDesc),
+		}},
+		propertySpec{ID: "C04", Harnesses: []harnessSpec{
+			h("cont.H_Hist", noAs2(hist(0, 2, 3, 1, 1)), noAs2(hist(0, 2, 4, 2, 1)), histCov, 30, histDesc),
+			h("cont.H_Hist", noAs2(hist(1, 3, 2, 0, 1)), noAs2(hist(1, 3, 4, 1, 1)), histCov, 0, histDesc),
+			h("cont.H_Hist", noAs2(hist(2, 2, 2, 0, 1)), noAs2(hist(2, 2, 4, 1, 1)), histCov, 0, histDesc),
+			h("cont.H_Hist", noAs2(hist(4, 2, 3, 1, 1)), noAs2(hist(4, 2, 4, 2, 1)), histCov, 20, histDesc),
+		}},
+		propertySpec{ID: "C07", Harnesses: []harnessSpec{
+			h("cont.H_Build", bld(0, 3, 1), bld(0, 3, 2), append([]string{"model_conflict"}, buildCov...), 30, buildDesc),
+			h("cont.H_Build", bld(1, 2, 2), bld(1, 2, 4), append([]string{"model_conflict"}, buildCov...), 0, buildDesc),
+			h("cont.H_Build", bld(2, 2, 1), bld(2, 3, 1), buildCov, 0, buildDesc),
+		}},
+		propertySpec{ID: "C08", Harnesses: []harnessSpec{
+			h("cont.H_Build", bld(0, 3, 1), bld(0, 3, 2), buildCov, 30, buildDesc),
+			h("cont.H_Build", bld(1, 2, 2), bld(1, 2, 4), buildCov, 0, buildDesc),
+			h("cont.H_Build", bld(2, 2, 2), bld(2, 3, 1), buildCov, 0, buildDesc),
+		}},
+	)
+	for i := range properties {
+		switch properties[i].ID {
+		case "C05":
+			properties[i].Harnesses = append(properties[i].Harnesses,
+				h("cont.H_Build", bld(0, 3, 1), bld(0, 3, 2), append([]string{"model_cycle"}, buildCov...), 30, buildDesc),
+				h("cont.H_Build", bld(1, 2, 2), bld(1, 2, 4), append([]string{"model_cycle"}, buildCov...), 0, buildDesc))
+		case "C06":
+			properties[i].Harnesses = append(properties[i].Harnesses,
+				h("cont.H_Order", bld(0, 3, 2), bld(0, 3, 4), []string{"both_built", "both_failed_or_differ"}, 20, "the same world registered and built twice: registration order permuted (intra-group order kept) and another map-order scheme; verdict classes equal, wiring of both isomorphic to the model, every singleton constructed after the singletons it received"),
+				h("cont.H_Order", bld(1, 2, 2), bld(1, 2, 4), []string{"both_built", "both_failed_or_differ"}, 0, "as above on keyed / group / interface edges"))
+		}
+	}
+}
+
 func findProperty(id string) *propertySpec {
 	for i := range properties {
 		if properties[i].ID == id {
